@@ -553,6 +553,7 @@ def r4(ctx):
         st = [(fr, e) for fr in ctx.frames(mb) if all(f_.kind != 'call' for f_ in fr.chain()) for e in ctx.eng.bx(fr.body).events() if e['kind'] == 'store']
         ok = False
         det = ''
+        covered = None          # (verdict, detail) of "every slot of the array receives a generator", when the form is recognised
         if len(st) == 1:
             fr1, ev1 = st[0]
             b1 = fr1.body
@@ -590,6 +591,16 @@ def r4(ctx):
             zipped = False
             want_idx = None
             if z is not None and z.tag == 'zip' and not ctx.adapters(z) and whole:
+                # coverage: the label side does not end before the array does (an open range, or a closed one with as many values as slots)
+                import re as _re
+                m_ = _re.search(r';\s*(\d+)\]$', mb.locals[0]['ty'])
+                nslots = int(m_.group(1)) if m_ else None
+                for sd in (strip(z[1]), strip(z[2])):
+                    mr = _re.match(r'^range\((\d+),(None|\d+)\)$', canon(sd))
+                    if mr and nslots is not None:
+                        covered = (mr.group(2) == 'None' or int(mr.group(2)) - int(mr.group(1)) >= nslots,
+                                   'label range %s against %d slots' % (canon(sd), nslots))
+            if z is not None and z.tag == 'zip' and not ctx.adapters(z) and whole:
                 sides = [strip(z[1]), strip(z[2])]
                 rk = [k for k in (0, 1) if canon(sides[k]) == 'range(1,None)']
                 if len(rk) == 1:
@@ -621,8 +632,18 @@ def r4(ctx):
                 one_plus = {canon(T('binop', 'Add', T('const', 1), k0)), canon(T('binop', 'Add', k0, T('const', 1)))}
                 ok = dec and pieces is not None and len(pieces) == 2 and pieces[0] == b'RISTRETTO_MASKING_BASEPOINT_' and pieces[1][0] == 'dec' and pieces[1][1] in one_plus
                 det = '%s with label pieces %s (array::from_fn: slot i holds the value for i)' % (c[:120], pieces)
+                covered = (True, 'array::from_fn fills every slot')
         rep.check(ok, 'R-C11-4', 'R-C11-4/blinding-generators', 'generator i = hash_from_bytes_sha3_512("RISTRETTO_MASKING_BASEPOINT_" ++ decimal(i)), i = 1.. zipped with the array slots',
                   'blinding generators are derived as %s' % det, ctx.where(mb))
+        # every slot is filled: a slot left at its placeholder is the identity (or a copy of another generator), and the transcript refuses
+        # the identity -- the extension degrees that use that slot can no longer be proven at all
+        if covered is not None:
+            rep.check(covered[0], 'R-C11-4', 'R-C11-4/all-slots', 'every slot of the blinding-generator array receives a derived point (%s)' % covered[1],
+                      'the derivation stops before the last slot of the array (%s): the remaining generators keep their placeholder value' % covered[1], ctx.where(mb))
+        elif ok:
+            rep.ok('R-C11-4', 'R-C11-4/all-slots', 'every slot of the blinding-generator array receives a derived point (implied by the derivation form)', ctx.where(mb))
+        else:
+            rep.idiom_absent('R-C11-4', 'R-C11-4/all-slots', 'the loop that fills the blinding-generator array is not in a recognised form: coverage of the slots not decided')
         # the store may sit in the initialiser itself (a `for` loop) or in a closure it hands to for_each: look in every frame
         st2 = [(fr, e) for fr in ctx.frames(cb) if all(f_.kind != 'call' for f_ in fr.chain()) for e in ctx.eng.bx(fr.body).events() if e['kind'] == 'store']
         ok2 = False
